@@ -3,10 +3,10 @@
 CUR = '(&[u8], usize)'
 
 PROLOGUE = '''#[allow(unused_imports)] use crate::vspec::*;
-#[allow(unused_imports)] use nom::{at, fld, suf, find, tagbyte, is_error};
+#[allow(unused_imports)] use nom::{at, fld, suf, find, tagbyte, is_error, hex_len, hex_val, dig_len};
 #[allow(unused_imports)] use vstd::std_specs::ops::*;
 #[allow(unused_imports)] use vstd::float::*;
-broadcast use crate::vspec::f32ax::f32_div_total, crate::vspec::f32ax::f32_mul_total;
+broadcast use {crate::vspec::f32ax::f32_div_total, crate::vspec::f32ax::f32_mul_total};
 '''
 
 
